@@ -310,7 +310,8 @@ V2Class(M, TS, ev) ==
          \* recursive doc#viewer - the tupleset edge to doc#viewer is never evaluated) hides an evaluation
          \* error instead of a grant: the default engine fails the request, v2 answers "no"
          ELSE IF ev.got = "F" /\ ref = "E" /\ ev.v1 = "ERR" /\ HasTypeCycle(M, ev.o.t, ev.r)
-         THEN <<"KF_V2CycleFalseNegative", ref>> leads to a parent whose target relation lists the
+         THEN <<"KF_V2CycleFalseNegative", ref>>
+         \* KF-16: a conditioned tupleset tuple leads to a parent whose target relation lists the
          \* subject's type both with and without a condition
          ELSE IF ev.got = "F" /\ ref = "T" /\ ev.v1 = "T" /\ CondParentMixedRestr(M, TS, ev.o, ev.r)
          THEN <<"KF_V2CondParentMixedRestr", ref>>
